@@ -11,6 +11,7 @@ import (
 	"reflect"
 	"runtime/debug"
 	"sort"
+	"strconv"
 	"strings"
 	"sync"
 	"testing"
@@ -42,9 +43,11 @@ func TestC14(t *testing.T) {
 			"elements with values that encode the defining style, and every element that has several attributes - spacing before/after/line/lineRule, indentation firstLine/left/right, " +
 			"border sides and their val/color/sz/space, shading fill/val, font ascii/eastAsia/hAnsi/cs, the optional value of underline and snapToGrid - populates all of them or a drawn " +
 			"non-empty subset, independently at every level; based-on edges drawn as chains, trees, diamonds, missing parents, links into the predefined styles and - unless the " +
-			"cycle finding is open - self-loops and cycles) plus queried ids (every generated id, predefined ids, unknown ids). Non-trivial: some query has a based-on chain of length >= 2 " +
+			"cycle finding is open - self-loops and cycles) plus queried ids (every generated id, predefined ids, unknown ids) plus, in three cases of eight, 1-4 later changes of the " +
+			"registry (a style - mostly one that others are based on - is registered again under its id with another definition and now and then another parent, removed, added - also under an id " +
+			"that was a missing parent -, or modified in place), every id being resolved again after every change against the registry as it is then. Non-trivial: some query has a based-on chain of length >= 2 " +
 			"on which an element is inherited from an ancestor or an ancestor's element is overridden. Distinct: based-on vector + per-query (chain length, chain end, inherited, overridden, " +
-			"elements whose nearest definition lacks an attribute a farther one has).",
+			"elements whose nearest definition lacks an attribute a farther one has) + per edit what it amounted to.",
 		Gen:       genCase,
 		Run:       run,
 		Findings:  findings,
@@ -53,6 +56,7 @@ func TestC14(t *testing.T) {
 			"style ids are non-empty and distinct; an empty based-on means no parent",
 			"formatting elements are inherited whole (a child's w:spacing replaces the parent's w:spacing), as the statement says",
 			"in a based-on cycle every member is an ancestor of every other; the walk stops at the first style met twice",
+			"the registry a query is answered from is what is registered at the time of the query: AddStyle under a registered id replaces, RemoveStyle makes the id unknown (a missing parent for its children), fields assigned to a registered style object (as CreateQuickStyle does after CreateCustomStyle) belong to its definition",
 		},
 		MustSee: map[string]float64{
 			"depth>=3": 0.15, "depth>=6": 0.02, "missing-parent": 0.05, "inherit:depth>=2": 0.10, "override": 0.20,
@@ -62,6 +66,8 @@ func TestC14(t *testing.T) {
 			"partial-over-ancestor": 0.25, "partial-over-ancestor:spacing": 0.05, "partial-over-ancestor:indentation": 0.05,
 			"partial-over-ancestor:borders": 0.05, "partial-over-ancestor:shading": 0.03, "partial-over-ancestor:font": 0.05,
 			"partial-over-ancestor:underline": 0.01, "partial-over-ancestor:snapToGrid": 0.01,
+			"edit": 0.25, "edit:replace": 0.10, "edit:remove": 0.05, "edit:add": 0.03, "edit:modify": 0.05, "edit:ancestor-of-resolved": 0.12,
+			"edit:changes-descendant": 0.08, "edit:far-ancestor-of-resolved": 0.03, "edit:rebase": 0.02, "edit:fills-missing-parent": 0.005,
 			"partial-over-full-parent": 0.10, "partial-spacing-over-full-parent": 0.02, "inherit-partial-element": 0.20,
 		},
 		Fixed: fixedCases,
@@ -174,51 +180,7 @@ func genCase(t *rapid.T) Case {
 			// an id of the predefined registry: a real parent when the case keeps that registry, a missing one otherwise
 			d.BasedOn = rapid.SampledFrom(predefinedIDs).Draw(t, "predef")
 		}
-		pool := ElemNames
-		if d.Via == "quick" {
-			pool = QuickElems
-		}
-		for _, e := range pool {
-			if eighths(t, e, density) {
-				d.Elems = append(d.Elems, e)
-			}
-		}
-		// which attributes the multi-attribute elements populate: all of them, a drawn non-empty subset, or the
-		// pattern tied to the value code (no entry). CreateQuickStyle can only say it for spacing and indentation.
-		for _, e := range d.Elems {
-			if _, multi := MultiAttr[e]; !multi || (d.Via == "quick" && e != "spacing" && e != "indentation") {
-				continue
-			}
-			m := -1
-			switch e {
-			case "underline", "snapToGrid":
-				m = rapid.SampledFrom([]int{1, 1, 1, 2, -1}).Draw(t, "attrs:"+e)
-			case "borders":
-				switch rapid.SampledFrom(attrModes).Draw(t, "attrs:"+e) {
-				case "full":
-					m = 0xFF
-				case "subset":
-					sides := rapid.SampledFrom(masks4).Draw(t, "sides")
-					la := rapid.SampledFrom(append([]int{15, 15, 15, 15}, masks4...)).Draw(t, "lineattrs")
-					m = sides | la<<4
-				}
-			default:
-				switch rapid.SampledFrom(attrModes).Draw(t, "attrs:"+e) {
-				case "full":
-					m = fullMask(e)
-				case "subset":
-					m = rapid.SampledFrom(masks4[:fullMask(e)]).Draw(t, "mask")
-				}
-			}
-			if m >= 0 {
-				if d.Attrs == nil {
-					d.Attrs = map[string]int{}
-				}
-				d.Attrs[e] = m
-			}
-		}
-		d.EmptyP = eighths(t, "emptyP", 1)
-		d.EmptyR = eighths(t, "emptyR", 1)
+		drawElems(t, &d, density)
 		defs[i] = d
 	}
 	// registration order is independent of the graph (parents may be registered after their children)
@@ -238,7 +200,145 @@ func genCase(t *rapid.T) Case {
 			c.Queries = append(c.Queries, rapid.SampledFrom([]string{"NoSuchStyle", "", "S10", "heading1", "Normal "}).Draw(t, "qunk"))
 		}
 	}
+	// the registry changes after it has been queried, and is queried again after every change
+	if eighths(t, "edits", 3) {
+		c.Edits = genEdits(t, c.Predefined, defs, density, cycles)
+	}
 	return c
+}
+
+// genEdits draws 1-4 changes of a registered registry: a style is registered again under its id (another definition,
+// now and then another parent), removed, added (also under an id that so far was somebody's missing parent) or
+// modified in place. Targets are mostly styles other styles are based on.
+func genEdits(t *rapid.T, predefined bool, defs []StyleDef, density int, cycles bool) []Edit {
+	cur := map[string]string{} // id -> based-on of what is registered now, as far as the generator can tell
+	var generated []string
+	for _, d := range defs {
+		cur[d.ID] = d.BasedOn
+		generated = append(generated, d.ID)
+	}
+	if predefined {
+		pm := predefinedModel()
+		for _, id := range sortedIDs(pm) {
+			if _, ok := cur[id]; !ok {
+				cur[id] = pm[id].BasedOn
+			}
+		}
+	}
+	k := rapid.SampledFrom([]int{1, 1, 2, 2, 3, 4}).Draw(t, "nedits")
+	var edits []Edit
+	for j := 0; j < k; j++ {
+		// candidates: every based-on target named by a generated style three times (registered or not), the generated ids once
+		var cand []string
+		for _, id := range generated {
+			if p, ok := cur[id]; ok && p != "" {
+				cand = append(cand, p, p, p)
+			}
+		}
+		cand = append(cand, generated...)
+		if predefined {
+			cand = append(cand, "Normal", "Heading1")
+		}
+		id := rapid.SampledFrom(cand).Draw(t, "target")
+		_, present := cur[id]
+		op := rapid.SampledFrom([]string{"put", "put", "put", "remove", "remove", "modify", "modify"}).Draw(t, "op")
+		if !present {
+			op = "put" // nothing to remove or to modify: the id gets registered
+		}
+		if op == "remove" {
+			edits = append(edits, Edit{Op: "remove", ID: id})
+			delete(cur, id)
+			continue
+		}
+		d := StyleDef{ID: id, Idx: len(defs) + j}
+		d.Type = rapid.SampledFrom([]string{"paragraph", "paragraph", "paragraph", "character"}).Draw(t, "etype")
+		d.Via = "add"
+		if op == "put" {
+			d.Via = rapid.SampledFrom([]string{"add", "add", "custom", "quick"}).Draw(t, "evia")
+			if present && d.Via == "quick" {
+				d.Via = "add" // CreateQuickStyle refuses a registered id
+			}
+		}
+		switch rapid.SampledFrom([]string{"keep", "keep", "keep", "keep", "keep", "none", "other", "missing", "predef"}).Draw(t, "ebase") {
+		case "keep":
+			d.BasedOn = cur[id]
+		case "other":
+			d.BasedOn = rapid.SampledFrom(generated).Draw(t, "eparent")
+		case "missing":
+			d.BasedOn = rapid.SampledFrom([]string{"NoSuchStyle", "S99"}).Draw(t, "emissing")
+		case "predef":
+			d.BasedOn = rapid.SampledFrom(predefinedIDs).Draw(t, "epredef")
+		}
+		if !cycles {
+			// while the cycle finding is open no edit may close a cycle: does the new parent lead back to the style?
+			seen := map[string]bool{}
+			for p := d.BasedOn; p != "" && !seen[p]; p = cur[p] {
+				if p == id {
+					d.BasedOn = ""
+					break
+				}
+				seen[p] = true
+			}
+		}
+		drawElems(t, &d, density)
+		cur[id] = d.BasedOn
+		if !present {
+			generated = append(generated, id)
+		}
+		dd := d
+		edits = append(edits, Edit{Op: op, Def: &dd})
+	}
+	return edits
+}
+
+// drawElems draws which formatting elements a definition carries and, for the elements that have several attributes,
+// which of them it populates.
+func drawElems(t *rapid.T, d *StyleDef, density int) {
+	pool := ElemNames
+	if d.Via == "quick" {
+		pool = QuickElems
+	}
+	for _, e := range pool {
+		if eighths(t, e, density) {
+			d.Elems = append(d.Elems, e)
+		}
+	}
+	// which attributes the multi-attribute elements populate: all of them, a drawn non-empty subset, or the
+	// pattern tied to the value code (no entry). CreateQuickStyle can only say it for spacing and indentation.
+	for _, e := range d.Elems {
+		if _, multi := MultiAttr[e]; !multi || (d.Via == "quick" && e != "spacing" && e != "indentation") {
+			continue
+		}
+		m := -1
+		switch e {
+		case "underline", "snapToGrid":
+			m = rapid.SampledFrom([]int{1, 1, 1, 2, -1}).Draw(t, "attrs:"+e)
+		case "borders":
+			switch rapid.SampledFrom(attrModes).Draw(t, "attrs:"+e) {
+			case "full":
+				m = 0xFF
+			case "subset":
+				sides := rapid.SampledFrom(masks4).Draw(t, "sides")
+				la := rapid.SampledFrom(append([]int{15, 15, 15, 15}, masks4...)).Draw(t, "lineattrs")
+				m = sides | la<<4
+			}
+		default:
+			switch rapid.SampledFrom(attrModes).Draw(t, "attrs:"+e) {
+			case "full":
+				m = fullMask(e)
+			case "subset":
+				m = rapid.SampledFrom(masks4[:fullMask(e)]).Draw(t, "mask")
+			}
+		}
+		if m >= 0 {
+			if d.Attrs == nil {
+				d.Attrs = map[string]int{}
+			}
+			d.Attrs[e] = m
+		}
+	}
+	d.EmptyP = eighths(t, "emptyP", 1)
+	d.EmptyR = eighths(t, "emptyR", 1)
 }
 
 var (
@@ -279,6 +379,23 @@ func fixedCases() []Case {
 			{ID: "P", Idx: 1, Type: "paragraph", Elems: []string{"bold"}, Via: "add"},
 			{ID: "K", Idx: 2, Type: "paragraph", BasedOn: "P", Elems: []string{"snapToGrid", "italic"}, Via: "quick"},
 		}, Queries: []string{"K", "P"}},
+		// a registry that changes between the queries: the root of a chain is registered again with another definition,
+		// the middle style is removed and comes back, the root is modified in place, a missing parent appears, the leaf moves
+		// to another parent; every id is resolved again after every step
+		{Styles: []StyleDef{
+			{ID: "Base", Idx: 0, Type: "paragraph", Elems: []string{"spacing", "alignment", "colour", "size"}, Via: "add"},
+			{ID: "Mid", Idx: 1, Type: "paragraph", BasedOn: "Base", Elems: []string{"indentation", "bold", "size"}, Via: "custom"},
+			{ID: "Leaf", Idx: 2, Type: "paragraph", BasedOn: "Mid", Elems: []string{"italic", "keepNext"}, Via: "add"},
+			{ID: "Sib", Idx: 3, Type: "paragraph", BasedOn: "Ghost", Elems: []string{"underline"}, Via: "add"},
+		}, Queries: []string{"Base", "Mid", "Leaf", "Sib", "Ghost"}, Edits: []Edit{
+			{Op: "put", Def: &StyleDef{ID: "Base", Idx: 4, Type: "paragraph", Elems: []string{"spacing", "colour", "highlight"}, Via: "add"}},
+			{Op: "remove", ID: "Mid"},
+			{Op: "put", Def: &StyleDef{ID: "Mid", Idx: 5, Type: "paragraph", BasedOn: "Base", Elems: []string{"alignment", "strike"}, Via: "quick"}},
+			{Op: "modify", Def: &StyleDef{ID: "Base", Idx: 6, Type: "paragraph", Elems: []string{"shading", "font", "colour"}, Via: "add"}},
+			{Op: "put", Def: &StyleDef{ID: "Ghost", Idx: 7, Type: "paragraph", BasedOn: "Base", Elems: []string{"borders", "size"}, Via: "custom"}},
+			{Op: "put", Def: &StyleDef{ID: "Leaf", Idx: 8, Type: "paragraph", BasedOn: "Ghost", Elems: []string{"italic"}, Via: "add"}},
+			{Op: "remove", ID: "Base"},
+		}},
 	}
 }
 
@@ -301,24 +418,59 @@ func setup(c Case) (sm *style.StyleManager, reg registry, err error) {
 	}
 	api := style.NewQuickStyleAPI(sm)
 	for _, d := range c.Styles {
-		switch d.Via {
-		case "custom":
-			st := sm.CreateCustomStyle(d.ID, "name of "+d.ID, style.StyleType(d.Type), d.BasedOn)
-			st.ParagraphPr, st.RunPr = d.props()
-			reg[d.ID] = snapshotStyle(d.literal())
-		case "quick":
-			st, e := api.CreateQuickStyle(d.quickConfig())
-			if e != nil {
-				return nil, nil, fmt.Errorf("CreateQuickStyle(%q): %v", d.ID, e)
-			}
-			// the model takes the definition as created (definitions are inputs of this property, not its subject)
-			reg[d.ID] = snapshotStyle(st)
-		default:
-			sm.AddStyle(d.literal())
-			reg[d.ID] = snapshotStyle(d.literal())
+		if err := register(sm, api, reg, d, d.Via); err != nil {
+			return nil, nil, err
 		}
 	}
 	return sm, reg, nil
+}
+
+// register puts one definition into the registry through the public API (via: add | custom | quick) and into the model.
+func register(sm *style.StyleManager, api *style.QuickStyleAPI, reg registry, d StyleDef, via string) error {
+	switch via {
+	case "custom":
+		st := sm.CreateCustomStyle(d.ID, "name of "+d.ID, style.StyleType(d.Type), d.BasedOn)
+		st.ParagraphPr, st.RunPr = d.props()
+		reg[d.ID] = snapshotStyle(d.literal())
+	case "quick":
+		st, e := api.CreateQuickStyle(d.quickConfig())
+		if e != nil {
+			return fmt.Errorf("CreateQuickStyle(%q): %v", d.ID, e)
+		}
+		// the model takes the definition as created (definitions are inputs of this property, not its subject)
+		reg[d.ID] = snapshotStyle(st)
+	default:
+		sm.AddStyle(d.literal())
+		reg[d.ID] = snapshotStyle(d.literal())
+	}
+	return nil
+}
+
+// applyEdit makes one edit in the real registry (the model is edited separately: registry.applyModel).
+func applyEdit(sm *style.StyleManager, api *style.QuickStyleAPI, e Edit, kind string) error {
+	switch kind {
+	case "remove", "remove-absent":
+		sm.RemoveStyle(e.ID)
+	case "replace", "add":
+		d := *e.Def
+		via := d.Via
+		if via == "quick" && kind == "replace" {
+			via = "add"
+		}
+		return register(sm, api, registry{}, d, via)
+	case "modify":
+		d := *e.Def
+		st := sm.GetStyle(d.ID)
+		if st == nil {
+			return fmt.Errorf("GetStyle(%q) = nil for a registered style", d.ID)
+		}
+		st.ParagraphPr, st.RunPr = d.props()
+		st.BasedOn = nil
+		if d.BasedOn != "" {
+			st.BasedOn = &style.BasedOn{Val: d.BasedOn}
+		}
+	}
+	return nil
 }
 
 var (
@@ -469,10 +621,14 @@ func modelOf(c Case) registry {
 	return reg
 }
 
+// reachesCycle: in some round some queried id has a based-on chain that comes back to a style already passed.
 func reachesCycle(c Case, reg registry) bool {
-	for _, q := range c.Queries {
-		if reg.reachesCycle(q) {
-			return true
+	regs, _ := reg.rounds(c.Edits)
+	for _, rg := range regs {
+		for _, q := range c.allQueries() {
+			if rg.reachesCycle(q) {
+				return true
+			}
 		}
 	}
 	return false
@@ -560,8 +716,8 @@ func childMain() {
 
 func runHere(c Case, sm *style.StyleManager, reg registry, res *kit.Result) *kit.Result {
 	api := style.NewQuickStyleAPI(sm)
-	before := snapshotAll(sm)
-	beforeDeep := copyAll(sm)
+	regs, kinds := reg.rounds(c.Edits) // the reference registry of every round
+	queries := c.allQueries()
 
 	// ---- labels from the case and the model
 	if c.Predefined {
@@ -649,201 +805,275 @@ func runHere(c Case, sm *style.StyleManager, reg registry, res *kit.Result) *kit
 		shape = append(shape, fmt.Sprintf("%d<%s", d.Idx, pi))
 	}
 	sort.Strings(shape)
-	for qi, q := range c.Queries {
-		want := reg.resolve(q)
-		tag := fmt.Sprintf("[q=%d %q]", qi, q)
-
-		// V1: GetStyleWithInheritance
-		var got *style.Style
-		res.Eval("C14.V1.terminates")
-		if p, st := kit.Try(func() { got = sm.GetStyleWithInheritance(q) }); p != nil {
-			res.Fail("C14.V1.terminates", "%s GetStyleWithInheritance panicked: %v [%s]", tag, p, st)
-			continue
+	var after map[string]string
+	for round := 0; round <= len(c.Edits); round++ {
+		if round > 0 {
+			// ---- the registry changes: edit round-1, in the model (done above) and through the public API
+			e, kind := c.Edits[round-1], kinds[round-1]
+			labelEdit(res, e, kind, regs[round-1], regs[round], queries)
+			var err error
+			if p, st := kit.Try(func() { err = applyEdit(sm, api, e, kind) }); p != nil {
+				res.Fail("C14.V0.setup", "edit %d (%s %q) panicked: %v [%s]", round, kind, e.target(), p, st)
+				return res
+			} else if err != nil {
+				res.Fail("C14.V0.setup", "edit %d (%s %q): %v", round, kind, e.target(), err)
+				return res
+			}
+			shape = append(shape, fmt.Sprintf("e%d:%s", round, kind))
 		}
-		if want == nil {
-			res.Label("query:unknown")
-			res.Eval("C14.V1.unknown")
-			if got != nil {
-				res.Fail("C14.V1.unknown", "%s no such style is registered, yet GetStyleWithInheritance returned %s", tag, Render(got))
+		reg := regs[round]
+		before := snapshotAll(sm)
+		beforeDeep := copyAll(sm)
+		for qi, q := range queries {
+			want := reg.resolve(q)
+			tag := fmt.Sprintf("[q=%d %q]", qi, q)
+			if round > 0 {
+				tag = fmt.Sprintf("[q=%d r=%d %q after %s]", qi, round, q, describeEdits(c.Edits[:round], kinds))
 			}
-		} else {
-			res.Eval("C14.V1.found")
-			if got == nil {
-				res.Fail("C14.V1.found", "%s the style is registered, yet GetStyleWithInheritance returned nil", tag)
+
+			// V1: GetStyleWithInheritance
+			var got *style.Style
+			res.Eval("C14.V1.terminates")
+			if p, st := kit.Try(func() { got = sm.GetStyleWithInheritance(q) }); p != nil {
+				res.Fail("C14.V1.terminates", "%s GetStyleWithInheritance panicked: %v [%s]", tag, p, st)
+				continue
+			}
+			if want == nil {
+				res.Label("query:unknown")
+				res.Eval("C14.V1.unknown")
+				if got != nil {
+					res.Fail("C14.V1.unknown", "%s no such style is registered, yet GetStyleWithInheritance returned %s", tag, Render(got))
+				}
 			} else {
-				obs := Observe(got)
-				for _, e := range ElemNames {
-					res.Eval("C14.V1." + e)
-					w, okw := want.Elems[e]
-					g, okg := obs[e]
-					// field by field against the element of the defining style (every attribute, nested sides included)
-					var fd []string
-					if okw && okg {
-						fieldDiff(elemOf(got, e), elemOf(want.Src[e], e), e, false, &fd, 6)
-					}
-					if okw != okg || w != g || len(fd) > 0 {
-						from := "no style on the chain defines it"
-						if okw {
-							from = fmt.Sprintf("defined by %q at depth %d", want.Chain[want.From[e]], want.From[e])
+				res.Eval("C14.V1.found")
+				if got == nil {
+					res.Fail("C14.V1.found", "%s the style is registered, yet GetStyleWithInheritance returned nil", tag)
+				} else {
+					obs := Observe(got)
+					for _, e := range ElemNames {
+						res.Eval("C14.V1." + e)
+						w, okw := want.Elems[e]
+						g, okg := obs[e]
+						// field by field against the element of the defining style (every attribute, nested sides included)
+						var fd []string
+						if okw && okg {
+							fieldDiff(elemOf(got, e), elemOf(want.Src[e], e), e, false, &fd, 6)
 						}
-						attrs := ""
-						if len(fd) > 0 {
-							attrs = "; differing attributes (got vs reference): " + strings.Join(fd, ", ")
+						if okw != okg || w != g || len(fd) > 0 {
+							from := "no style on the chain defines it"
+							if okw {
+								from = fmt.Sprintf("defined by %q at depth %d", want.Chain[want.From[e]], want.From[e])
+							}
+							attrs := ""
+							if len(fd) > 0 {
+								attrs = "; differing attributes (got vs reference): " + strings.Join(fd, ", ")
+							}
+							res.Fail("C14.V1."+e, "%s element %s: got %s, should be %s (%s)%s; chain %q ends in %s", tag, e, show(g, okg), show(w, okw), from, attrs, want.Chain, want.End)
 						}
-						res.Fail("C14.V1."+e, "%s element %s: got %s, should be %s (%s)%s; chain %q ends in %s", tag, e, show(g, okg), show(w, okw), from, attrs, want.Chain, want.End)
 					}
 				}
-			}
-			// labels of what this query exercised
-			depth := len(want.Chain)
-			inh, ovr, maxFrom := 0, 0, 0
-			for e, k := range want.From {
-				if k > 0 {
-					inh++
-					if k > maxFrom {
-						maxFrom = k
+				// labels of what this query exercised
+				depth := len(want.Chain)
+				inh, ovr, maxFrom := 0, 0, 0
+				for e, k := range want.From {
+					if k > 0 {
+						inh++
+						if k > maxFrom {
+							maxFrom = k
+						}
+					}
+					// overridden: a farther style on the chain also defines the element
+					for _, id := range want.Chain[k+1:] {
+						if _, has := reg[id].Elems[e]; has {
+							ovr++
+							break
+						}
 					}
 				}
-				// overridden: a farther style on the chain also defines the element
-				for _, id := range want.Chain[k+1:] {
-					if _, has := reg[id].Elems[e]; has {
-						ovr++
-						break
+				if depth >= 2 {
+					res.Label("depth>=2")
+				}
+				if depth >= 3 {
+					res.Label("depth>=3")
+				}
+				if depth >= 6 {
+					res.Label("depth>=6")
+				}
+				if depth >= 10 {
+					res.Label("depth>=10")
+				}
+				if inh > 0 {
+					res.Label("inherit")
+				}
+				if maxFrom >= 2 {
+					res.Label("inherit:depth>=2")
+				}
+				if ovr > 0 {
+					res.Label("override")
+				}
+				if want.End == "cycle" {
+					res.Label("has-cycle")
+					if depth == 2 {
+						res.Label("cycle:2")
+					} else if depth > 2 {
+						res.Label("cycle:n")
 					}
 				}
-			}
-			if depth >= 2 {
-				res.Label("depth>=2")
-			}
-			if depth >= 3 {
-				res.Label("depth>=3")
-			}
-			if depth >= 6 {
-				res.Label("depth>=6")
-			}
-			if depth >= 10 {
-				res.Label("depth>=10")
-			}
-			if inh > 0 {
-				res.Label("inherit")
-			}
-			if maxFrom >= 2 {
-				res.Label("inherit:depth>=2")
-			}
-			if ovr > 0 {
-				res.Label("override")
-			}
-			if want.End == "cycle" {
-				res.Label("has-cycle")
-				if depth == 2 {
-					res.Label("cycle:2")
-				} else if depth > 2 {
-					res.Label("cycle:n")
+				if k, ok := want.From["snapToGrid"]; ok {
+					res.Label("snapToGrid-defined")
+					if k > 0 {
+						res.Label("snapToGrid-inherited")
+					}
 				}
-			}
-			if k, ok := want.From["snapToGrid"]; ok {
-				res.Label("snapToGrid-defined")
-				if k > 0 {
-					res.Label("snapToGrid-inherited")
-				}
-			}
-			// attribute-level classes: the nearest definition of a multi-attribute element lacks an attribute that a
-			// farther definition on the chain has (an attribute-wise merge would leak it into the result)
-			leak := 0
-			for _, e := range MultiElems {
-				k, ok := want.From[e]
-				if !ok {
-					continue
-				}
-				near := attrsOf(reg[want.Chain[k]].Def, e)
-				partial := len(near) < attrTotal[e]
-				if k > 0 && partial {
-					res.Label("inherit-partial-element")
-				}
-				first := true
-				for _, id := range want.Chain[k+1:] {
-					far := attrsOf(reg[id].Def, e)
-					if far == nil {
+				// attribute-level classes: the nearest definition of a multi-attribute element lacks an attribute that a
+				// farther definition on the chain has (an attribute-wise merge would leak it into the result)
+				leak := 0
+				for _, e := range MultiElems {
+					k, ok := want.From[e]
+					if !ok {
 						continue
 					}
-					missing := false
-					for a := range far {
-						if _, has := near[a]; !has {
-							missing = true
-						}
+					near := attrsOf(reg[want.Chain[k]].Def, e)
+					partial := len(near) < attrTotal[e]
+					if k > 0 && partial {
+						res.Label("inherit-partial-element")
 					}
-					if missing {
-						leak++
-						res.Label("partial-over-ancestor")
-						res.Label("partial-over-ancestor:" + e)
-						if k > 0 {
-							res.Label("partial-over-ancestor:inherited") // the partial element is itself inherited
+					first := true
+					for _, id := range want.Chain[k+1:] {
+						far := attrsOf(reg[id].Def, e)
+						if far == nil {
+							continue
 						}
-						if first && len(far) == attrTotal[e] {
-							res.Label("partial-over-full-parent")
-							res.Label("partial-" + e + "-over-full-parent")
+						missing := false
+						for a := range far {
+							if _, has := near[a]; !has {
+								missing = true
+							}
 						}
-						if e == "spacing" && near["line"] != "" && near["lineRule"] == "" && far["lineRule"] != "" {
-							res.Label("spacing:line-without-rule-over-rule")
+						if missing {
+							leak++
+							res.Label("partial-over-ancestor")
+							res.Label("partial-over-ancestor:" + e)
+							if k > 0 {
+								res.Label("partial-over-ancestor:inherited") // the partial element is itself inherited
+							}
+							if first && len(far) == attrTotal[e] {
+								res.Label("partial-over-full-parent")
+								res.Label("partial-" + e + "-over-full-parent")
+							}
+							if e == "spacing" && near["line"] != "" && near["lineRule"] == "" && far["lineRule"] != "" {
+								res.Label("spacing:line-without-rule-over-rule")
+							}
+							break
 						}
-						break
+						if first && partial && len(far) < attrTotal[e] {
+							res.Label("partial-over-partial-parent")
+						}
+						first = false
 					}
-					if first && partial && len(far) < attrTotal[e] {
-						res.Label("partial-over-partial-parent")
-					}
-					first = false
 				}
+				if depth >= 2 && (inh > 0 || ovr > 0) {
+					res.Nontrivial = true
+				}
+				shape = append(shape, fmt.Sprintf("q%d:%s:%d:%d:%d", depth, want.End, inh, ovr, leak))
 			}
-			if depth >= 2 && (inh > 0 || ovr > 0) {
-				res.Nontrivial = true
-			}
-			shape = append(shape, fmt.Sprintf("q%d:%s:%d:%d:%d", depth, want.End, inh, ovr, leak))
-		}
 
-		// V2: the two derived views
-		var m map[string]interface{}
-		var aerr error
-		res.Eval("C14.V2.apply")
-		if p, st := kit.Try(func() { m, aerr = sm.ApplyStyleToXML(q) }); p != nil {
-			res.Fail("C14.V2.apply", "%s ApplyStyleToXML panicked: %v [%s]", tag, p, st)
-		} else if want == nil {
-			if aerr == nil {
-				res.Fail("C14.V2.apply", "%s no such style, yet ApplyStyleToXML returned no error (%v)", tag, m)
+			// V2: the two derived views
+			var m map[string]interface{}
+			var aerr error
+			res.Eval("C14.V2.apply")
+			if p, st := kit.Try(func() { m, aerr = sm.ApplyStyleToXML(q) }); p != nil {
+				res.Fail("C14.V2.apply", "%s ApplyStyleToXML panicked: %v [%s]", tag, p, st)
+			} else if want == nil {
+				if aerr == nil {
+					res.Fail("C14.V2.apply", "%s no such style, yet ApplyStyleToXML returned no error (%v)", tag, m)
+				}
+			} else if aerr != nil {
+				res.Fail("C14.V2.apply", "%s ApplyStyleToXML failed for a registered style: %v", tag, aerr)
+			} else {
+				checkApply(res, tag, q, reg[q], want, m)
 			}
-		} else if aerr != nil {
-			res.Fail("C14.V2.apply", "%s ApplyStyleToXML failed for a registered style: %v", tag, aerr)
-		} else {
-			checkApply(res, tag, q, reg[q], want, m)
+			var info *style.StyleInfo
+			var ierr error
+			res.Eval("C14.V2.info")
+			if p, st := kit.Try(func() { info, ierr = api.GetStyleInfo(q) }); p != nil {
+				res.Fail("C14.V2.info", "%s GetStyleInfo panicked: %v [%s]", tag, p, st)
+			} else if want == nil {
+				if ierr == nil {
+					res.Fail("C14.V2.info", "%s no such style, yet GetStyleInfo returned no error (%+v)", tag, info)
+				}
+			} else if ierr != nil || info == nil {
+				res.Fail("C14.V2.info", "%s GetStyleInfo failed for a registered style: %v", tag, ierr)
+			} else if info.ID != q || string(info.Type) != reg[q].Type || info.BasedOn != reg[q].BasedOn {
+				res.Fail("C14.V2.info", "%s GetStyleInfo says id=%q type=%q basedOn=%q, registered is id=%q type=%q basedOn=%q", tag, info.ID, info.Type, info.BasedOn, q, reg[q].Type, reg[q].BasedOn)
+			}
 		}
-		var info *style.StyleInfo
-		var ierr error
-		res.Eval("C14.V2.info")
-		if p, st := kit.Try(func() { info, ierr = api.GetStyleInfo(q) }); p != nil {
-			res.Fail("C14.V2.info", "%s GetStyleInfo panicked: %v [%s]", tag, p, st)
-		} else if want == nil {
-			if ierr == nil {
-				res.Fail("C14.V2.info", "%s no such style, yet GetStyleInfo returned no error (%+v)", tag, info)
-			}
-		} else if ierr != nil || info == nil {
-			res.Fail("C14.V2.info", "%s GetStyleInfo failed for a registered style: %v", tag, ierr)
-		} else if info.ID != q || string(info.Type) != reg[q].Type || info.BasedOn != reg[q].BasedOn {
-			res.Fail("C14.V2.info", "%s GetStyleInfo says id=%q type=%q basedOn=%q, registered is id=%q type=%q basedOn=%q", tag, info.ID, info.Type, info.BasedOn, q, reg[q].Type, reg[q].BasedOn)
+		// ---- V3: the queries of this round changed nothing that is registered
+		res.Eval("C14.V3")
+		after = snapshotAll(sm)
+		if d := diffDeep(beforeDeep, sm); d != "" {
+			res.Fail("C14.V3", "[r=%d] the registry differs from the deep copy taken before the queries %q: %s", round, queries, d)
+		} else if d := diffSnap(before, after); d != "" {
+			res.Fail("C14.V3", "[r=%d] the registry differs after the queries %q: %s", round, queries, d)
 		}
 	}
 	res.Shape = strings.Join(shape, " ")
 
-	// ---- V3: the queries changed nothing that is registered
-	res.Eval("C14.V3")
-	after := snapshotAll(sm)
-	if d := diffDeep(beforeDeep, sm); d != "" {
-		res.Fail("C14.V3", "the registry differs from the deep copy taken before the queries %q: %s", c.Queries, d)
-	} else if d := diffSnap(before, after); d != "" {
-		res.Fail("C14.V3", "the registry differs after the queries %q: %s", c.Queries, d)
-	}
-
 	// ---- V4: clone independence (against the registry as it is now, so that a V3 failure is not reported twice)
 	checkClone(res, sm, after)
 	return res
+}
+
+func describeEdits(edits []Edit, kinds []string) string {
+	var out []string
+	for i, e := range edits {
+		d := kinds[i] + " " + strconv.Quote(e.target())
+		if e.Def != nil && kinds[i] != "modify-absent" {
+			d += fmt.Sprintf("(code %d, basedOn %q)", e.Def.Idx, e.Def.BasedOn)
+		}
+		out = append(out, d)
+	}
+	return strings.Join(out, ", ")
+}
+
+// labelEdit names the classes an edit belongs to, from the reference registries before and after it.
+func labelEdit(res *kit.Result, e Edit, kind string, prev, next registry, queries []string) {
+	id := e.target()
+	res.Label("edit")
+	res.Label("edit:" + kind)
+	if kind == "replace" || kind == "modify" {
+		if prev[id].BasedOn != next[id].BasedOn {
+			res.Label("edit:rebase")
+		}
+	}
+	for _, q := range queries {
+		a, b := prev.resolve(q), next.resolve(q)
+		if (a == nil) != (b == nil) {
+			res.Label("edit:query-appears-or-disappears")
+		}
+		if a == nil {
+			continue
+		}
+		// the edited id is a proper ancestor of a style that has been resolved before the edit ...
+		for _, anc := range a.Chain[1:] {
+			if anc == id {
+				res.Label("edit:ancestor-of-resolved")
+				res.Label("edit:ancestor-of-resolved:" + kind)
+				if len(a.Chain) >= 3 && a.Chain[1] != id {
+					res.Label("edit:far-ancestor-of-resolved")
+				}
+			}
+		}
+		// ... or the missing parent its chain ended in
+		if a.End == "missing" && prev[a.Chain[len(a.Chain)-1]].BasedOn == id && kind == "add" {
+			res.Label("edit:fills-missing-parent")
+		}
+		// the resolution of a style other than the edited one is different afterwards
+		if b != nil && q != id && !reflect.DeepEqual(a.Elems, b.Elems) {
+			res.Label("edit:changes-descendant")
+			res.Label("edit:changes-descendant:" + kind)
+		}
+	}
 }
 
 // checkApply compares the map of ApplyStyleToXML with the reference on the elements that map exposes.
